@@ -1,5 +1,5 @@
 """Minimal pure-Python stand-in for kvxopt.spmatrix/sparse/matrix (dense storage of explicit entries)."""
-import pysym
+from . import pysym
 class spmatrix:
     def __init__(self, V, I, J, size=None, tc='d'):
         V = list(V) if hasattr(V, '__iter__') else [V] * len(I)
